@@ -64,8 +64,11 @@ theorem c20_setErr_comm (g : G) (t u : Tid) (e e' : ErrState) (h : t ≠ u) :
     (g.setErr t e).setErr u e' = (g.setErr u e').setErr t e := by
   apply G.ext'
   · intro w
-    by_cases h1 : w = t <;> by_cases h2 : w = u <;> simp [h1, h2]
+    by_cases h1 : w = t <;> by_cases h2 : w = u
     · exact absurd (h1.symm.trans h2) h
+    · subst h1; simp [h2]
+    · subst h2; simp [h1]
+    · simp [h1, h2]
   · exact ⟨rfl, rfl, rfl, rfl⟩
 
 /-- MAIN (single call): after any operation, returning or raising, the global state is exactly as before -/
@@ -373,6 +376,7 @@ theorem c20_inv_step (prog : Prog α) (g0 : G) (s : Sys α) (h : Inv prog g0 s) 
       by_cases hu : u = t
       · subst hu
         intro c hc
+        simp only [Sys.setTh_same] at hc
         exact h.loc u c (by simp [htodo, hc])
       · simp only [Sys.setTh_other _ _ _ _ hu]; exact h.loc u
 
@@ -430,6 +434,87 @@ example :
     intro g g' he hg
     simp only [body, he, hg.2.2.1]
   · simp [prog, ht] at hb
+
+/-! ### commutation of atomic steps -/
+
+/-- the atomic step of thread `t` as a pair: the thread's new error state and its new local state -/
+def Sys.next (s : Sys α) (t : Tid) : ErrState × TState α :=
+  match (s.th t).todo, (s.th t).phase with
+  | [], _ => (s.g.err t, s.th t)
+  | b :: rest, .idle => (.ignoreAll, { s.th t with phase := .entered (s.g.err t) })
+  | b :: rest, .entered saved => (s.g.err t, { s.th t with phase := .computed saved (b s.g) })
+  | b :: rest, .computed saved r => (saved, { todo := rest, phase := .idle, results := (s.th t).results ++ [r] })
+
+theorem Sys.ext' {s s' : Sys α} (hg : s.g = s'.g) (ht : ∀ t, s.th t = s'.th t) : s = s' := by
+  obtain ⟨g, th⟩ := s
+  obtain ⟨g', th'⟩ := s'
+  simp only at hg ht
+  have : th = th' := funext ht
+  subst hg this
+  rfl
+
+theorem Sys.step_eq (s : Sys α) (t : Tid) :
+    s.step t = { g := s.g.setErr t (s.next t).1, th := s.setTh t (s.next t).2 } := by
+  unfold Sys.step Sys.next
+  generalize htd : (s.th t).todo = td
+  generalize hph : (s.th t).phase = ph
+  have hnil : s = { g := s.g.setErr t (s.g.err t), th := s.setTh t (s.th t) } := by
+    apply Sys.ext'
+    · simp [c20_setErr_restore]
+    · intro u; by_cases hu : u = t <;> simp [Sys.setTh, hu]
+  cases td with
+  | nil => exact hnil
+  | cons b rest =>
+    cases ph with
+    | idle => rfl
+    | entered saved =>
+      apply Sys.ext'
+      · simp [c20_setErr_restore]
+      · intro u; rfl
+    | computed saved r => rfl
+
+theorem Sys.next_step_other (s : Sys α) (t u : Tid) (h : t ≠ u) (hloc : ∀ b ∈ (s.th t).todo, LocalTo t b) :
+    (s.step u).next t = s.next t := by
+  have hth : (s.step u).th t = s.th t := by rw [Sys.step_eq]; simp [Sys.setTh, h]
+  have herr : (s.step u).g.err t = s.g.err t := by rw [Sys.step_eq]; simp [h]
+  have hglob : (s.step u).g.sameGlobals s.g := by rw [Sys.step_eq]; exact ⟨rfl, rfl, rfl, rfl⟩
+  unfold Sys.next
+  rw [hth, herr]
+  split
+  · rfl
+  · rfl
+  · rename_i b rest saved htodo hphase
+    have := hloc b (by simp [htodo]) (s.step u).g s.g herr hglob
+    rw [this]
+  · rfl
+
+/-- atomic steps of different threads commute: swapping two adjacent steps of a schedule changes nothing -/
+theorem c20_step_commute (s : Sys α) (t u : Tid) (h : t ≠ u) (hlt : ∀ b ∈ (s.th t).todo, LocalTo t b)
+    (hlu : ∀ b ∈ (s.th u).todo, LocalTo u b) : (s.step t).step u = (s.step u).step t := by
+  rw [Sys.step_eq (s.step t) u, Sys.step_eq (s.step u) t, Sys.next_step_other s t u h hlt,
+    Sys.next_step_other s u t (Ne.symm h) hlu, Sys.step_eq s t, Sys.step_eq s u]
+  apply Sys.ext'
+  · exact c20_setErr_comm _ _ _ _ _ h
+  · intro w
+    by_cases h1 : w = t <;> by_cases h2 : w = u
+    · exact absurd (h1.symm.trans h2) h
+    · subst h1; simp [Sys.setTh, h2]
+    · subst h2; simp [Sys.setTh, h1]
+    · simp [Sys.setTh, h1, h2]
+
+theorem Sys.run_append (s : Sys α) (a b : List Tid) : s.run (a ++ b) = (s.run a).run b := by
+  induction a generalizing s with
+  | nil => rfl
+  | cons t a ih => simp only [List.cons_append, Sys.run]; exact ih _
+
+/-- any two adjacent steps of different threads of ANY schedule can be swapped without changing anything (so all
+interleavings with the same per-thread order end in the same machine state) -/
+theorem c20_run_swap (prog : Prog α) (g : G) (hloc : ∀ t, ∀ b ∈ prog t, LocalTo t b) (pre post : List Tid)
+    (t u : Tid) (h : t ≠ u) :
+    (Sys.init prog g).run (pre ++ t :: u :: post) = (Sys.init prog g).run (pre ++ u :: t :: post) := by
+  have hinv := c20_inv_run prog g _ (c20_inv_init prog g hloc) pre
+  simp only [Sys.run_append, Sys.run]
+  rw [c20_step_commute _ t u h (hinv.loc t) (hinv.loc u)]
 
 end
 end VG
